@@ -13,6 +13,7 @@ waiting order: no notification, direct or passed on, ever overtakes an earlier w
 waiting.  The logs are computed from what a step did (`Sync/ConditionHistory.lean`).
 -/
 import AnyioModel.Sync.ConditionHistory
+import AnyioModel.Sync.ConditionAcct
 
 namespace AnyioModel.Sync.Condition
 open AnyioModel.Sync
@@ -51,6 +52,32 @@ theorem C11_runNLog_runFrom (s : State) (l : NLog) (es : List Ev) :
   | cons e es ih =>
     simp only [runNLog, runFrom]
     split <;> simp_all
+
+/-- No wake-up is lost or invented, over whole histories: every `wait()` that queued its event is
+accounted for exactly once - the event was set (by `notify`, `notify_all` or a passed-on
+notification), or the waiter took itself out of the queue because it was cancelled before being
+notified (`left`), or the event is still queued. -/
+theorem C11_wait_accounting {f : Bool} {es : List Ev} {s : State} {l : ALog}
+    (h : runALog (init f) {} es = some (s, l)) :
+    l.n.wq.Perm (l.n.sig ++ l.left ++ s.waiters) := by
+  have := (ainvl_run es (inv_init f) (ainvl_init f) h).2
+  rw [List.perm_iff_count]
+  intro x
+  simp only [List.count_append]
+  exact this x
+
+/-- `leftQueue` means what it says: a queued event that is neither queued nor set afterwards -/
+theorem C11_leftQueue_sound {s s' : State} {u : Nat} (h : u ∈ leftQueue s s') :
+    u ∈ s.waiters ∧ u ∉ s'.waiters ∧ isSet (s'.cpc u) = false := by
+  unfold leftQueue at h
+  have hm := List.mem_filter.mp h
+  have h2 := hm.2
+  simp only [Bool.and_eq_true, Bool.not_eq_true', List.contains_eq_mem, decide_eq_false_iff_not] at h2
+  exact ⟨hm.1, h2.1, h2.2⟩
+
+example : (runALog (init true) {} [.acquire 1 false, .wait 1 false, .acquire 2 false, .wait 2 false,
+    .fc 1, .step 1, .release 1, .acquire 0 false, .notify 0 1]).map
+      (fun r => (r.2.n.wq, r.2.n.sig, r.2.left, r.1.waiters)) = some ([1, 2], [2], [1], []) := by decide
 
 /-! ### non-vacuity: three waiters, the first is cancelled after being notified (passes it on) -/
 
